@@ -25,6 +25,7 @@ func (c08) Rule() string {
 	return "case = (document, assignment-free expression E from the core-fragment generator extended with ~40 read-only operators, placement template). Templates: " +
 		"`(E) as $x | .`; `select([E] | length > -1)`; `select(E)`/`select((E) or true)`; any_c/all_c(E) and sort_by/group_by/unique_by(E) on sequence documents; has/contains/pick argument; " +
 		"both operands of + - * / % == != < <= > >= and or // in a writable context (`((E1 OP E2) | select(false)), .`). " +
+		"Every 21st case: records family (c08_records.go): documents of sequences of maps over one key set written in differing key orders (nested too), single maps and sequences of sequences derived from them; E = array subtraction trees / contains / unique / group_by / sort / pick / omit / + / * / == over them; besides the unchanged document the value of a subtraction must equal a model of the records (key order of what stays included). " +
 		"Compared: YAML bytes and JSON value of the printed document against `yq .` on the same input. Errors in E end the case (nothing compared). " +
 		"Non-trivial = E evaluated without error and contains >=1 traversal or function; distinct by (template, expression skeleton, document shape)."
 }
@@ -112,6 +113,9 @@ var c08Tpls = []c08Tpl{
 
 func (p c08) Run(w *mon.Worker, idx int) mon.Result {
 	r := w.Rand(idx)
+	if idx%21 == 4 {
+		return c08RecordsCase(w, r)
+	}
 	if idx%8 == 5 {
 		return c08AnchorCase(w, r)
 	}
